@@ -119,6 +119,21 @@ def one_tree(tspec, relative_style, acc, rnd, only_mp=None, force_excl=None, for
         full = HUB.scan_events[-1]
         attribute_scan_findings(full, MAPPING, case)
         acc.evaluated()
+        # the public accessor: the same modules as the graph; what it returns belongs to the caller (emptied / extended,
+        # it must not change what the architecture says next time)
+        try:
+            ms = full.evaluable.modules
+            first = set(ms)
+            if isinstance(ms, list):
+                ms.clear() if rnd.random() < 0.5 else ms.extend(["elsewhere", "elsewhere.mod"])
+            again = set(full.evaluable.modules)
+            acc.count("modules_accessor_reads")
+            if first != set(full.nodes):
+                HUB.violation("C04", "modules-accessor-differs-from-the-graph", "EvaluableArchitecture.modules differs from the modules of the graph", {"diff": sorted(first ^ set(full.nodes))[:12]})
+            elif again != first:
+                HUB.violation("C04", "modules-accessor-result-is-shared", "editing the list returned by EvaluableArchitecture.modules changes what the accessor returns next", {"diff": sorted(again ^ first)[:12]})
+        except Exception as e:  # noqa: BLE001
+            acc.hist("modules_accessor_unavailable", type(e).__name__)
         dirs = trees.all_dirs(tspec)
         names_in_tree = {p for d in dirs for p in d.split("/")}
         prefix_siblings = any(a != b and b.startswith(a) for a in names_in_tree for b in names_in_tree if a)
@@ -284,6 +299,18 @@ def one_tree(tspec, relative_style, acc, rnd, only_mp=None, force_excl=None, for
             acc.evaluated()
             acc.count("regex_exclusion_scans_with_groups_and_backreferences")
             attribute_scan_findings(sr, MAPPING, c6)
+            # the same patterns as a one-shot iterable (map / generator): the same modules
+            for form, mk in (("generator", lambda: (p_ for p_ in pats)), ("map", lambda: map(str, pats)), ("list", lambda: list(pats))):
+                try:
+                    get_evaluable_architecture(root, root, exclusions=(), regex_exclusions=mk())
+                    alt = HUB.scan_events[-1]
+                except Exception as e:  # noqa: BLE001  (no architecture, no claim)
+                    acc.hist("pattern_container_rejected", f"{form}:{type(e).__name__}")
+                    continue
+                acc.evaluated()
+                acc.count("scans_with_patterns_in_another_container")
+                if alt.nodes != sr.nodes:
+                    HUB.violation("C04", f"patterns-as-{form}-differ-from-tuple", f"the same regex exclusions given as a {form} yield other modules than given as a tuple", dict(c6, form=form, nodes_diff=sorted(alt.nodes ^ sr.nodes)[:12]))
         acc.count("trees")
         if tspec.get("symlinks"):
             acc.count("trees_with_symlinked_package")
@@ -302,7 +329,7 @@ def floors(acc, tier):
     why = []
     if acc.counters["scans_judged"] < 200:
         why.append(f"only {acc.counters['scans_judged']} scans judged")
-    for c, n in (("subscan_equivalences", 100), ("entry_point_equivalences", 100), ("prefix_sibling_trees", 10), ("via_prefix_statements", 10), ("include_mode_scans", 30), ("sibling_directory_exclusion_scans", 10), ("root_named_package_scans", 20), ("trees_with_symlinked_package", 10), ("symlinked_root_scans", 30), ("regex_exclusion_scans_with_groups_and_backreferences", 10), ("path_spelling_variants", 100)):
+    for c, n in (("subscan_equivalences", 100), ("entry_point_equivalences", 100), ("prefix_sibling_trees", 10), ("via_prefix_statements", 10), ("include_mode_scans", 30), ("sibling_directory_exclusion_scans", 10), ("root_named_package_scans", 20), ("trees_with_symlinked_package", 10), ("symlinked_root_scans", 30), ("regex_exclusion_scans_with_groups_and_backreferences", 10), ("path_spelling_variants", 100), ("scans_with_patterns_in_another_container", 20), ("modules_accessor_reads", 100)):
         if acc.counters[c] < n:
             why.append(f"{c}: only {acc.counters[c]}")
     if acc.counters["scan_model_errors"]:
